@@ -518,3 +518,117 @@ _run_c29b = run
 def run(ctx):  # noqa: F811
     _run_c29b(ctx)
     r29_5(ctx, ctx.model)
+
+
+# ---------------------------------------------------------------------------------------------------------------- R29.6 - R29.8
+GM = "nifty.re.gauss_markov"
+
+
+def r29_6(ctx, m):
+    R = "R29.6"
+    ctx.rule(R, "integrated Wiener process: every per-interval factor of the noise amplitude (sigma, dt - scalars or sequences over the "
+                "steps) is expanded along the TIME axis before it multiplies the (steps, 2) excitations: in the product with xi each "
+                "factor that depends on sigma / dt stands under the `[:, newaxis]` expansion (a bare sequence would broadcast against "
+                "the state axis)", floor=1)
+    fi = m.func(GM, "integrated_wiener_process")
+    ctx.saw_func(fi)
+    xi = fi.params()[0]
+    per_step = set(fi.params()[2:4])
+
+    def factors(e):
+        if isinstance(e, ast.BinOp) and isinstance(e.op, ast.Mult):
+            return factors(e.left) + factors(e.right)
+        return [e]
+
+    def expanded(e):
+        if isinstance(e, ast.Subscript) and isinstance(e.slice, ast.Tuple) and len(e.slice.elts) == 2:
+            a, b = e.slice.elts
+            return isinstance(a, ast.Slice) and a.lower is None and a.upper is None and ((isinstance(b, ast.Constant) and b.value is None) or src(b).endswith("newaxis"))
+        return False
+    n = 0
+    for st in walk_no_nested(fi.node):
+        if not (isinstance(st, ast.Assign) and isinstance(st.value, ast.BinOp) and isinstance(st.value.op, ast.Mult)):
+            continue
+        fs = factors(st.value)
+        if not any(isinstance(f, ast.Name) and f.id == xi for f in fs):
+            continue
+        n += 1
+        bare = [src(f) for f in fs if not (isinstance(f, ast.Name) and f.id == xi) and not expanded(f)
+                and any(isinstance(z, ast.Name) and z.id in per_step for z in ast.walk(f))]
+        ctx.check(R, f"{fi.key}::`{short(st, 60)}`: per-interval factors are expanded along the time axis", not bare,
+                  f"{bare} multiplies the (steps, 2) array without the time-axis expansion" if bare else "", fi, st)
+    if not n:
+        ctx.und(R, f"{fi.key}::noise amplitude", "product with the excitations not found", fi)
+
+
+def r29_7(ctx, m):
+    R = "R29.7"
+    ctx.rule(R, "process constructors: an optional numeric argument (initial state, amplitude, ...) is recognised as 'not given' by "
+                "`is None` only - a truthiness test (`not x0`, `if x0:`) also catches the legitimate value 0 and silently turns a fixed "
+                "initial state 0 into a free parameter", floor=2)
+    mod = m.module(GM)
+    n = 0
+    for fi in mod.all_functions:
+        if fi.parent is not None:
+            continue
+        params = set(fi.params())
+        bad, tests = [], 0
+        for st in walk_no_nested(fi.node):
+            if not isinstance(st, (ast.If, ast.IfExp, ast.While)):
+                continue
+            t = st.test
+            atoms = []
+
+            def collect(e):
+                if isinstance(e, ast.BoolOp):
+                    for v in e.values:
+                        collect(v)
+                elif isinstance(e, ast.UnaryOp) and isinstance(e.op, ast.Not):
+                    collect(e.operand)
+                else:
+                    atoms.append(e)
+            collect(t)
+            for a in atoms:
+                if isinstance(a, ast.Compare) and len(a.ops) == 1 and isinstance(a.ops[0], (ast.Is, ast.IsNot)) and isinstance(a.left, ast.Name) and a.left.id in params:
+                    tests += 1
+                if isinstance(a, ast.Name) and a.id in params:
+                    bad.append((a.id, st))
+        if tests or bad:
+            n += 1
+            ctx.saw_func(fi)
+            ctx.check(R, f"{fi.key}::optional arguments are tested with `is None`", not bad,
+                      "; ".join(f"truthiness test of `{nm}` (line {st.lineno})" for nm, st in bad) if bad else "", fi, bad[0][1] if bad else None)
+    if not n:
+        ctx.und(R, f"{GM}::optional arguments", "no None tests found", mod.relpath)
+
+
+def r29_8(ctx, m):
+    R = "R29.8"
+    ctx.rule(R, "scalar wrapper of the generic generator: drift and diffusion amplitude are each lifted to (sequences of) 1x1 matrices "
+                "from their OWN value - no re-binding of one of them reads the other", floor=1)
+    fi = m.func(GM, "scalar_gauss_markov_process")
+    ctx.saw_func(fi)
+    pair = [p for p in fi.params() if p in ("drift", "diffamp")]
+    if len(pair) != 2:
+        pair = fi.params()[2:4]
+    n = 0
+    for st in walk_no_nested(fi.node):
+        if isinstance(st, ast.Assign) and len(st.targets) == 1 and isinstance(st.targets[0], ast.Name) and st.targets[0].id in pair:
+            n += 1
+            me = st.targets[0].id
+            other = [p for p in pair if p != me][0]
+            reads_other = any(isinstance(z, ast.Name) and z.id == other for z in ast.walk(st.value))
+            ctx.check(R, f"{fi.key}::`{short(st, 50)}` lifts {me} from itself", not reads_other,
+                      f"`{src(st)}` builds {me} from {other}" if reads_other else "", fi, st)
+    if not n:
+        ctx.und(R, f"{fi.key}::lifting", "no re-binding of drift / diffamp found", fi)
+
+
+_run_c29x = run
+
+
+def run(ctx):  # noqa: F811
+    _run_c29x(ctx)
+    r29_6(ctx, ctx.model)
+    r29_7(ctx, ctx.model)
+    r29_8(ctx, ctx.model)
